@@ -36,6 +36,8 @@ class Sched:
         self.started = [False] * n
         self.overlap = 0
         self._fncache = {}
+        self.record = False
+        self.trace = []  # (thread, (file, function)) per yield point, only when record is set
 
     def is_lib(self, fn):
         r = self._fncache.get(fn)
@@ -64,6 +66,9 @@ class Sched:
     def yield_point(self, frame):
         self.step += 1
         s = self.step
+        if self.record:
+            c = frame.f_code
+            self.trace.append((self.tls.i, (c.co_filename.rsplit("/", 1)[-1] if not c.co_filename.startswith("<compiled") else "<compiled>", c.co_name)))
         if s > self.step_cap:
             self.error = "step cap exceeded"
             raise HarnessError("step cap exceeded")
